@@ -8,14 +8,20 @@ from . import common, fakesock
 
 
 class FakeThread:
+    """the clock thread is not run (ticks are explicit operations), but its liveness follows the real worker's only exit:
+    the worker leaves its loop as soon as the breaker event of its CLCKGen is set"""
     def __init__(self, target=None, **kw):
         self.alive = False
         self.daemon = True
+        self.owner = getattr(target, "__self__", None)
 
     def start(self):
         self.alive = True
 
     def is_alive(self):
+        br = getattr(self.owner, "_breaker", None)
+        if self.alive and br is not None and br.is_set():
+            return False            # a worker started (or left) with the breaker set returns at its first wait
         return self.alive
 
     def join(self, timeout=None):
